@@ -28,6 +28,7 @@ fn main() {
         "exit255" => std::process::exit(255),
         "replyexit1" => { let r = std::fs::read(path("reply")).unwrap_or_default(); out.write_all(&r).unwrap(); out.flush().unwrap(); std::process::exit(1) }
         "stderr" => { out.write_all(&[0, 0]).unwrap(); eprintln!("generator complains"); }
+        "replysigkill" => { let r = std::fs::read(path("reply")).unwrap_or_default(); out.write_all(&r).unwrap(); out.flush().unwrap(); unsafe { libc_kill(9) } }
         "sigkill" => unsafe { libc_kill(9) },
         "sigsegv" => unsafe { libc_kill(11) },
         _ => { out.write_all(&[0, 0]).unwrap(); }
